@@ -614,12 +614,14 @@ def _optimizer(draw, key, family=None, parametric=False):
         # parameters are aberration coefficients in Angstrom / radians
         lr = draw(_lr(1e-2, 1.0)) if t != "sgd" else draw(_lr(1e-1, 10.0))
     elif t == "sgd":
-        if key != "dataset" and _rare(draw, 4):
+        if _rare(draw, 4):
             lr = 1  # a Python int: the textbook unit step; iter_lrs then mixes ints and floats
         else:
-            lr = draw(_lr(1e-3, 5e-2) if key != "dataset" else _lr(1e-4, 1e-3))
+            # dataset: scan positions then move <= 0.1 px in 6 iterations (measured), far from x.5
+            lr = draw(_lr(1e-3, 5e-2) if key != "dataset" else _lr(1e-2, 0.2))
     else:
-        lr = draw({"object": _lr(1e-3, 5e-2), "probe": _lr(1e-3, 2e-2), "dataset": _lr(1e-4, 2e-3)}[key])
+        # dataset/Adam: <= 1.6*lr px per iteration, <= 0.3 px in 6 iterations
+        lr = draw({"object": _lr(1e-3, 5e-2), "probe": _lr(1e-3, 2e-2), "dataset": _lr(1e-3, 3e-2)}[key])
     d = {"type": t, "lr": lr}
     if t == "sgd" and lr != 1 and draw(st.booleans()):
         d["momentum"] = draw(st.sampled_from([0.5, 0.9]))
@@ -872,7 +874,8 @@ def check(ctx, case):
 
 def search(ctx):
     shrink = ctx.thorough
-    core.run_given(ctx, "skip", skip_cases(), lambda c: check(ctx, c), ctx.n(6, 60), shrink=shrink)
-    core.run_given(ctx, "resume", resume_cases(), lambda c: check(ctx, c), ctx.n(28, 420), shrink=shrink)
+    # ~0.8 s per case: quick = 4 workers x 65 cases, thorough = 16 workers x 580 cases
+    core.run_given(ctx, "skip", skip_cases(), lambda c: check(ctx, c), ctx.n(10, 80), shrink=shrink)
+    core.run_given(ctx, "resume", resume_cases(), lambda c: check(ctx, c), ctx.n(55, 500), shrink=shrink)
     for k, v in STATS.items():
         ctx.extra["max_err_over_tol: " + k] = round(v, 6)
